@@ -363,3 +363,17 @@ class StateSerialisationIsSelfContained(ScanCheck):
                     out.append((f'serialiser.{cname}.{fn.name}', not bad, {'class': cname, 'method': fn.name, 'findings': '; '.join(bad)}))
         out.append(('serialisers_found', n_methods >= 4, {'methods': n_methods}))
         return out
+
+
+def _rereg_c07(base, new_id, doc):
+    cls = type('C07_' + base.__name__, (base,), {'id': new_id, 'prop': 'C07', 'doc': doc})
+    register(cls)
+
+
+_rereg_c07(_c02.WriteEntity, 'C07.entity_write_commits_a_deep_copy',
+           'StateTransactionBase.write_entity (C02.write_entity re-checked): the state queued for commit is a DEEP copy of '
+           'the entity state - a shallow copy would share MetricValue etc. with the entity object the application keeps, and '
+           'the state stored at MdibVersion N would change content without a commit while a Get answer is being written')
+_rereg_c07(_c02.ContextWriteEntity, 'C07.context_entity_write_commits_deep_copies',
+           'ContextStateTransaction.write_entity (C02.context_write_entity re-checked): every context state queued for '
+           'commit is a deep copy of the entity state')
